@@ -151,6 +151,18 @@ CHECKS = {
         "Histories up to 32 steps on up to 3 datasets; executors are stepped synchronously; value() at most twice per history.",
         "DESIGN.md section 4, C11",
     ),
+    "C12": (
+        "Hypothesis-generated histories (model-based / stateful) with harness-owned schedules: executors await custom gates that the "
+        "generated permutation releases, coroutines stepped by hand; oracle = per-dataset call-log invariants + reference "
+        "'remove empty MetaData' model + object identity of results/exceptions",
+        "Model-based testing over histories of build and execute operations on 1-3 datasets: no executor call during building; every "
+        "value()/value_async() adds exactly one call to exactly the right log (none when an override executor is given, which is "
+        "then called once); the AST received equals a reference cleaner applied to the stream's query; the title is passed "
+        "through; the result IS the executor's sentinel / the raised object IS its exception for every generated completion order "
+        "of concurrently awaited executions; find_EventDataset returns the root dataset node and rejects 0 or 2 roots.",
+        "Completion orders of awaited executions are fully controlled; OS-thread interleavings inside make_it_sync are not explored.",
+        "DESIGN.md section 4, C12",
+    ),
 }
 
 NOT_YET = "check not built yet in this round (work in progress; see DESIGN.md section 4 for the planned generator/oracle)"
